@@ -1,8 +1,17 @@
 use parking_lot::RwLock;
-use std::collections::{hash_map::RandomState, HashMap};
+use std::collections::hash_map::RandomState;
+#[cfg(not(all(transparencies_stretto_verif, kani)))]
+use std::collections::HashMap;
+#[cfg(all(transparencies_stretto_verif, kani))]
+use crate::verif_kmap::HashMap;
 use std::hash::BuildHasher;
 use std::ops::{Deref, DerefMut};
+#[cfg(not(transparencies_stretto_verif))]
 use std::time::{Duration, SystemTime, UNIX_EPOCH};
+#[cfg(transparencies_stretto_verif)]
+use crate::verif_env::clock::{SystemTime, UNIX_EPOCH};
+#[cfg(transparencies_stretto_verif)]
+use std::time::Duration;
 
 use crate::CacheError;
 
@@ -215,3 +224,7 @@ impl<S: BuildHasher + Clone + 'static> ExpirationMap<S> {
 unsafe impl<S: BuildHasher + Clone + 'static> Send for ExpirationMap<S> {}
 
 unsafe impl<S: BuildHasher + Clone + 'static> Sync for ExpirationMap<S> {}
+
+#[cfg(all(transparencies_stretto_verif, any(kani, test)))]
+#[path = "/verif/harness/h_ttl.rs"]
+mod verif_harness;
